@@ -41,34 +41,24 @@ func SelectEqual(v string) func(string) bool {
 
 // asciiToInt converts bytes to int.
 func asciiToInt(bts []byte) (ret int, err error) {
-	// ASCII numbers all start with the high-order bits 0011.
-	// If you see that, and the next bits are 0-9 (0000 - 1001) you can grab those
-	// bits and interpret them directly as an integer.
 	var n int
 	if n = len(bts); n < 1 {
 		return 0, fmt.Errorf("converting empty bytes to int")
 	}
+	const maxInt = int(^uint(0) >> 1)
 	for i := 0; i < n; i++ {
-		if bts[i]&0xf0 != 0x30 {
+		// NOTE: bytes 0x3a-0x3f (":;<=>?") share the high-order bits with
+		// the digits, so the whole byte must be compared.
+		if bts[i] < '0' || bts[i] > '9' {
 			return 0, fmt.Errorf("%s is not a numeric character", string(bts[i]))
 		}
-		ret += int(bts[i]&0xf) * pow(10, n-i-1)
+		d := int(bts[i] - '0')
+		if ret > (maxInt-d)/10 {
+			return 0, fmt.Errorf("%s overflows int", bts)
+		}
+		ret = ret*10 + d
 	}
 	return ret, nil
-}
-
-// pow for integers implementation.
-// See Donald Knuth, The Art of Computer Programming, Volume 2, Section 4.6.3.
-func pow(a, b int) int {
-	p := 1
-	for b > 0 {
-		if b&1 != 0 {
-			p *= a
-		}
-		b >>= 1
-		a *= a
-	}
-	return p
 }
 
 func bsplit3(bts []byte, sep byte) (b1, b2, b3 []byte) {
